@@ -372,6 +372,37 @@ def run(ctx):
     ee = A.early_loop_exits(zs, zsc)
     ctx.check(not ee, "C13.4", "Zone::serialise:no-early-exit", "the record loops end only when their iterator is exhausted",
               "a record loop of Zone::serialise can be left early (records after that point are not written): %s" % [zs.loc(a) for h, a, s_ in ee], zs.loc())
+    # ... and every record visited is written: in each record loop a cycle that does not pass the write of that record's
+    # RDATA exists only behind `rtype() == SOA` (the apex SOA is written once, at the top)
+    written = {}
+    for b, t in A.call_blocks(zs, A.name_endswith("Zone>::serialise_rdata")):
+        e = zsr.call_expr(t, b)
+        src = next((A.iter_elem_source(x) for x in A.walk(e[2][1]) if A.iter_elem_source(x) is not None), None)
+        if src is None:
+            continue
+        # which map the list comes from: the receiver of the look-up (the key - a name - may itself derive from both maps)
+        maps = [g[2][0] for g in A.walk(src) if g[0] == "call" and g[1].endswith("HashMap::<K, V, S, A>::get") and g[2]] or [src]
+        which = {y[1].rsplit("::", 1)[-1] for m_ in maps for y in A.walk(m_) if y[0] == "call" and y[1] in (Z + "Zone::all_records", Z + "Zone::all_wildcard_records")}
+        inner = [(h, body) for h, body in zs.loops() if b in body]
+        if not inner or len(which) != 1:
+            continue
+        h, body = min(inner, key=lambda x: len(x[1]))
+        wr = [wb for wb, wt_ in A.call_blocks(zs, A.name_endswith("Write::write_fmt")) if wb in body and zs.dominates(b, wb)]
+        def is_soa(fc):
+            if fc[0] != "cmp" or fc[1] != "Eq":
+                return False
+            for x, y in ((fc[2], fc[3]), (fc[3], fc[2])):
+                py = A.peel(y)
+                if py[0] == "agg" and py[2] == "SOA" and any(z[0] == "call" and z[1].endswith("RecordTypeWithData::rtype") for z in A.walk(x)):
+                    return True
+            return False
+        soa_edges = [(a_, s_) for a_, s_ in zsc.edges_where(is_soa) if a_ in body]
+        skipping = zs.has_cycle(removed_blocks=wr, removed_edges=soa_edges, within=body)
+        written[which.pop()] = bool(wr) and not skipping
+        ctx.check(bool(wr) and not skipping, "C13.4", "Zone::serialise:record-written@%s" % zs.loc(h).split(":")[-1], "every record of the list is written (only a SOA is skipped)",
+                  "a record can be passed over without being written", zs.loc(h))
+    ctx.check(set(written) == {"all_records", "all_wildcard_records"}, "C13.4", "Zone::serialise:record-loops", "one writing loop over the ordinary and one over the wildcard records of a name",
+              "writing loops found for %s" % sorted(written), zs.loc())
     # every caller decides `quoted` with a literal: true only for the character-string / opaque RDATA fields (which are
     # written inside quotes), false for every name (a name is never quoted, so a space in it must be escaped)
     for fn_, b_, t_ in A.who_calls(prog, ZS + "serialise_octets"):
